@@ -50,6 +50,9 @@ typedef struct
 
 } Skinny64CTRVec128Ctx_t;
 
+static int skinny64_ctr_vec128_set_counter
+    (Skinny64CTR_t *ctr, const void *counter, unsigned size);
+
 static int skinny64_ctr_vec128_init(Skinny64CTR_t *ctr)
 {
     Skinny64CTRVec128Ctx_t *ctx;
@@ -59,7 +62,9 @@ static int skinny64_ctr_vec128_init(Skinny64CTR_t *ctr)
     ctx->base_ptr = base_ptr;
     ctx->offset = SKINNY64_CTR_BLOCK_SIZE;
     ctr->ctx = ctx;
-    return 1;
+
+    /* Start from the all-zero counter block with the lanes staggered */
+    return skinny64_ctr_vec128_set_counter(ctr, 0, 0);
 }
 
 static void skinny64_ctr_vec128_cleanup(Skinny64CTR_t *ctr)
